@@ -356,9 +356,11 @@ def compare_session(c, impl, mod, j):
             out.append('allocation dates model=%s impl=%s' % ([t for t, _ in ma][:4], [t for t, _ in ia][:4]))
         else:
             for (t, mw), (_, iw) in zip(ma, ia):
-                if [a for a, _ in mw] != [a for a, _ in iw]:
+                # (the ORDER of the keys in a recorded row is not an observable of any property: compared as a mapping)
+                if sorted(a for a, _ in mw) != sorted(a for a, _ in iw):
                     out.append('allocation keys at %d model=%s impl=%s' % (t, [a for a, _ in mw], [a for a, _ in iw]))
                     break
+                mw, iw = sorted(mw), sorted(iw)
                 if any(not close(x, y, Fraction(1, 10**9)) for (_, x), (_, y) in zip(mw, iw)):
                     out.append('allocation weights at %d model=%s impl=%s' % (t, [float(x) for _, x in mw], [y for _, y in iw]))
                     break
